@@ -3,6 +3,7 @@ package main
 import (
 	"fmt"
 	"go/token"
+	"go/types"
 	"strings"
 
 	"golang.org/x/tools/go/ssa"
@@ -69,6 +70,7 @@ func runC18(c *Ctx) {
 			}
 		}
 		r.Check("R18.2", FuncName(update), "the default width is LongestLineCells of the cell's text", update.Pos(), found, "")
+		c18WidthStores(c, "R18.2")
 		c18HeightShape(c, update, lines, str, height)
 	}
 	checkEmitWidth(c, "R18.2")
@@ -451,4 +453,53 @@ func c18LongestAll(c *Ctx, lines *ssa.Function, kinds []string) {
 				return f != nil && f != m && funcPkgPath(f) == pkgPath("length") && strings.HasPrefix(f.Name(), "String")
 			})
 	}
+}
+
+// c18WidthStores: every value Update stores as the cell's width is one of: 0, LongestLineCells of the cell's own
+// text, what the item's TerminalCellWidth() returned, or the width of the nested cell. No other measure (a
+// whole-string measure, a rune count, a cached value) may stand in for the widest line.
+func c18WidthStores(c *Ctx, rule string) {
+	r := c.R
+	cell := c.Named("", "Cell")
+	update := c.Method(cell, true, "Update")
+	width, str := c.Field(cell, "width"), c.Field(cell, "str")
+	llc := c.Func("length", "LongestLineCells")
+	if update == nil || width == nil || str == nil || llc == nil {
+		return
+	}
+	n := 0
+	for _, fs := range c.StoresTo(width) {
+		if fs.Fn != update {
+			continue
+		}
+		for _, v := range phiClosure(fs.St.Val) {
+			n++
+			ok, why := false, "stored value: "+v.String()
+			switch x := v.(type) {
+			case *ssa.Const:
+				k, isK := constInt(x)
+				ok = isK && k == 0
+			case *ssa.Call:
+				if x.Call.StaticCallee() == llc {
+					f, b := loadedField(x.Call.Args[0])
+					ok = f == str && b == ssa.Value(update.Params[0])
+					why = "LongestLineCells of something other than the cell's text"
+				} else if x.Call.IsInvoke() && x.Call.Method.Name() == "TerminalCellWidth" {
+					ok = true
+				} else {
+					why = "the width is measured by " + calleeDesc(&x.Call) + ", not as the widest line of the text"
+				}
+			case *ssa.UnOp, *ssa.Field:
+				f := (*types.Var)(nil)
+				if fl, isF := x.(*ssa.Field); isF {
+					f = fieldOfField(fl)
+				} else {
+					f, _ = loadedField(x)
+				}
+				ok = f == width
+			}
+			r.Check(rule, FuncName(update), fmt.Sprintf("width store #%d is 0, the widest line of the text, the item's declared width or the nested cell's width", n), fs.St.Pos(), ok, why)
+		}
+	}
+	r.Floor(rule, "values stored as a cell's width", n, 3)
 }
